@@ -57,34 +57,38 @@ func (e *Engine) intrinsics() map[string]externalFn {
 			}
 			return nil
 		},
-		sym + ".Stdout": func(fr *frame, args []value) value { return strings.Join(fr.i.path.stdout, "") },
-		sym + ".Quiesce":   func(fr *frame, args []value) value { fr.i.sch.quiesce(); return nil },
+		sym + ".Stdout":  func(fr *frame, args []value) value { return strings.Join(fr.i.path.stdout, "") },
+		sym + ".Quiesce": func(fr *frame, args []value) value { fr.i.sch.quiesce(); return nil },
 		sym + ".Opaque": func(fr *frame, args []value) value {
 			s, ok := args[0].(string)
 			return ok && strings.Contains(s, phOpen)
 		},
 		sym + ".Prune": func(fr *frame, args []value) value { fr.i.path.prune = args[0].(bool); return nil },
-		sym + ".And": func(fr *frame, args []value) value { return fr.i.andV(args[0], args[1]) },
+		sym + ".And":   func(fr *frame, args []value) value { return fr.i.andV(args[0], args[1]) },
 		sym + ".Or": func(fr *frame, args []value) value {
 			return fr.i.notV(fr.i.andV(fr.i.notV(args[0]), fr.i.notV(args[1])))
 		},
-		sym + ".Cut":       func(fr *frame, args []value) value { fr.i.path.rec.Cuts = append(fr.i.path.rec.Cuts, fr.i.hostString(args[0])); fr.i.path.end("cut", fr.i.hostString(args[0])); return nil },
+		sym + ".Cut": func(fr *frame, args []value) value {
+			fr.i.path.rec.Cuts = append(fr.i.path.rec.Cuts, fr.i.hostString(args[0]))
+			fr.i.path.end("cut", fr.i.hostString(args[0]))
+			return nil
+		},
 
 		// ---- internal/bytealg
-		"internal/bytealg.IndexByteString": extIndexByteString,
-		"internal/bytealg.IndexByte":       extIndexByte,
-		"internal/bytealg.CountString":     extCountString,
-		"internal/bytealg.Count":           extCount,
-		"internal/bytealg.IndexString":     extIndexString,
-		"internal/bytealg.Index":           extIndexBytes,
-		"internal/bytealg.Compare":         extCompare,
-		"internal/bytealg.CompareString":   extCompareString,
-		"strings.Compare":                  extCompareString,
-		"internal/bytealg.Equal":           extBytesEqual,
-		"internal/bytealg.MakeNoZero":      extMakeNoZero,
-		"internal/stringslite.Index":       nil, // interpreted
-		"bytes.Equal":                      extBytesEqual,
-		"bytes.Compare":                    extCompare,
+		"internal/bytealg.IndexByteString":     extIndexByteString,
+		"internal/bytealg.IndexByte":           extIndexByte,
+		"internal/bytealg.CountString":         extCountString,
+		"internal/bytealg.Count":               extCount,
+		"internal/bytealg.IndexString":         extIndexString,
+		"internal/bytealg.Index":               extIndexBytes,
+		"internal/bytealg.Compare":             extCompare,
+		"internal/bytealg.CompareString":       extCompareString,
+		"strings.Compare":                      extCompareString,
+		"internal/bytealg.Equal":               extBytesEqual,
+		"internal/bytealg.MakeNoZero":          extMakeNoZero,
+		"internal/stringslite.Index":           nil, // interpreted
+		"bytes.Equal":                          extBytesEqual,
+		"bytes.Compare":                        extCompare,
 		"internal/bytealg.LastIndexByteString": extLastIndexByteString,
 		"internal/bytealg.LastIndexByte":       extLastIndexByte,
 
@@ -127,56 +131,67 @@ func (e *Engine) intrinsics() map[string]externalFn {
 		"errors.As": extErrorsAs,
 
 		// ---- sync
-		"(*sync.WaitGroup).Add":    func(fr *frame, args []value) value { fr.i.sch.wgAdd(args[0].(*value), int(fr.i.concInt(args[1]))); return nil },
-		"(*sync.WaitGroup).Done":   func(fr *frame, args []value) value { fr.i.sch.wgAdd(args[0].(*value), -1); return nil },
-		"(*sync.WaitGroup).Wait":   func(fr *frame, args []value) value { fr.i.sch.wgWait(args[0].(*value)); return nil },
-		"(*sync.Mutex).Lock":       func(fr *frame, args []value) value { fr.i.sch.muLock(args[0].(*value), false); return nil },
-		"(*sync.Mutex).Unlock":     func(fr *frame, args []value) value { fr.i.sch.muUnlock(args[0].(*value), false); return nil },
-		"(*sync.Mutex).TryLock":    func(fr *frame, args []value) value { return fr.i.sch.muTryLock(args[0].(*value)) },
-		"(*sync.RWMutex).Lock":     func(fr *frame, args []value) value { fr.i.sch.muLock(args[0].(*value), false); return nil },
-		"(*sync.RWMutex).Unlock":   func(fr *frame, args []value) value { fr.i.sch.muUnlock(args[0].(*value), false); return nil },
-		"(*sync.RWMutex).RLock":    func(fr *frame, args []value) value { fr.i.sch.muLock(args[0].(*value), true); return nil },
-		"(*sync.RWMutex).RUnlock":  func(fr *frame, args []value) value { fr.i.sch.muUnlock(args[0].(*value), true); return nil },
-		"(*sync.Once).Do":          extOnceDo,
-		"(*sync.Pool).Get":         extPoolGet,
-		"(*sync.Pool).Put":         extNop,
+		"(*sync.WaitGroup).Add": func(fr *frame, args []value) value {
+			fr.i.sch.wgAdd(args[0].(*value), int(fr.i.concInt(args[1])))
+			return nil
+		},
+		"(*sync.WaitGroup).Done":           func(fr *frame, args []value) value { fr.i.sch.wgAdd(args[0].(*value), -1); return nil },
+		"(*sync.WaitGroup).Wait":           func(fr *frame, args []value) value { fr.i.sch.wgWait(args[0].(*value)); return nil },
+		"(*sync.Mutex).Lock":               func(fr *frame, args []value) value { fr.i.sch.muLock(args[0].(*value), false); return nil },
+		"(*sync.Mutex).Unlock":             func(fr *frame, args []value) value { fr.i.sch.muUnlock(args[0].(*value), false); return nil },
+		"(*sync.Mutex).TryLock":            func(fr *frame, args []value) value { return fr.i.sch.muTryLock(args[0].(*value)) },
+		"(*sync.RWMutex).Lock":             func(fr *frame, args []value) value { fr.i.sch.muLock(args[0].(*value), false); return nil },
+		"(*sync.RWMutex).Unlock":           func(fr *frame, args []value) value { fr.i.sch.muUnlock(args[0].(*value), false); return nil },
+		"(*sync.RWMutex).RLock":            func(fr *frame, args []value) value { fr.i.sch.muLock(args[0].(*value), true); return nil },
+		"(*sync.RWMutex).RUnlock":          func(fr *frame, args []value) value { fr.i.sch.muUnlock(args[0].(*value), true); return nil },
+		"(*sync.Once).Do":                  extOnceDo,
+		"(*sync.Pool).Get":                 extPoolGet,
+		"(*sync.Pool).Put":                 extNop,
 		"sync.runtime_registerPoolCleanup": extNop,
+		"sync.runtime_notifyListCheck":     extNop,
 
 		// ---- sync/atomic
-		"sync/atomic.LoadInt32":            extAtomicLoad,
-		"sync/atomic.LoadInt64":            extAtomicLoad,
-		"sync/atomic.LoadUint32":           extAtomicLoad,
-		"sync/atomic.LoadUint64":           extAtomicLoad,
-		"sync/atomic.LoadUintptr":          extAtomicLoad,
-		"sync/atomic.LoadPointer":          extAtomicLoad,
-		"sync/atomic.StoreInt32":           extAtomicStore,
-		"sync/atomic.StoreInt64":           extAtomicStore,
-		"sync/atomic.StoreUint32":          extAtomicStore,
-		"sync/atomic.StoreUint64":          extAtomicStore,
-		"sync/atomic.StoreUintptr":         extAtomicStore,
-		"sync/atomic.StorePointer":         extAtomicStore,
-		"sync/atomic.AddInt32":             extAtomicAdd,
-		"sync/atomic.AddInt64":             extAtomicAdd,
-		"sync/atomic.AddUint32":            extAtomicAdd,
-		"sync/atomic.AddUint64":            extAtomicAdd,
-		"sync/atomic.CompareAndSwapInt32":  extAtomicCAS,
-		"sync/atomic.CompareAndSwapInt64":  extAtomicCAS,
-		"sync/atomic.CompareAndSwapUint32": extAtomicCAS,
-		"sync/atomic.CompareAndSwapUint64": extAtomicCAS,
+		"sync/atomic.LoadInt32":             extAtomicLoad,
+		"sync/atomic.LoadInt64":             extAtomicLoad,
+		"sync/atomic.LoadUint32":            extAtomicLoad,
+		"sync/atomic.LoadUint64":            extAtomicLoad,
+		"sync/atomic.LoadUintptr":           extAtomicLoad,
+		"sync/atomic.LoadPointer":           extAtomicLoad,
+		"sync/atomic.StoreInt32":            extAtomicStore,
+		"sync/atomic.StoreInt64":            extAtomicStore,
+		"sync/atomic.StoreUint32":           extAtomicStore,
+		"sync/atomic.StoreUint64":           extAtomicStore,
+		"sync/atomic.StoreUintptr":          extAtomicStore,
+		"sync/atomic.StorePointer":          extAtomicStore,
+		"sync/atomic.AddInt32":              extAtomicAdd,
+		"sync/atomic.AddInt64":              extAtomicAdd,
+		"sync/atomic.AddUint32":             extAtomicAdd,
+		"sync/atomic.AddUint64":             extAtomicAdd,
+		"sync/atomic.CompareAndSwapInt32":   extAtomicCAS,
+		"sync/atomic.CompareAndSwapInt64":   extAtomicCAS,
+		"sync/atomic.CompareAndSwapUint32":  extAtomicCAS,
+		"sync/atomic.CompareAndSwapUint64":  extAtomicCAS,
 		"sync/atomic.CompareAndSwapPointer": extAtomicCAS,
+		"sync/atomic.CompareAndSwapUintptr": extAtomicCAS,
+		"sync/atomic.SwapInt32":             extAtomicSwap,
+		"sync/atomic.SwapInt64":             extAtomicSwap,
+		"sync/atomic.SwapUint32":            extAtomicSwap,
+		"sync/atomic.SwapUint64":            extAtomicSwap,
+		"sync/atomic.SwapUintptr":           extAtomicSwap,
+		"sync/atomic.SwapPointer":           extAtomicSwap,
 
 		// ---- runtime / os / time
-		"runtime.NumCPU":     func(fr *frame, args []value) value { return 4 },
-		"runtime.GOMAXPROCS": func(fr *frame, args []value) value { return 4 },
-		"runtime.Gosched":    func(fr *frame, args []value) value { fr.i.sch.yield(); return nil },
-		"runtime.GC":         extNop,
-		"runtime.KeepAlive":  extNop,
-		"runtime.SetFinalizer": extNop,
-		"os.Exit":            func(fr *frame, args []value) value { panic(exitPanic(int(fr.i.concInt(args[0])))) },
-		"time.Now":           extZeroResult,
-		"time.Since":         extZeroResult,
-		"time.Sleep":         extNop,
-		"(time.Time).Sub":    extZeroResult,
+		"runtime.NumCPU":         func(fr *frame, args []value) value { return 4 },
+		"runtime.GOMAXPROCS":     func(fr *frame, args []value) value { return 4 },
+		"runtime.Gosched":        func(fr *frame, args []value) value { fr.i.sch.yield(); return nil },
+		"runtime.GC":             extNop,
+		"runtime.KeepAlive":      extNop,
+		"runtime.SetFinalizer":   extNop,
+		"os.Exit":                func(fr *frame, args []value) value { panic(exitPanic(int(fr.i.concInt(args[0])))) },
+		"time.Now":               extZeroResult,
+		"time.Since":             extZeroResult,
+		"time.Sleep":             extNop,
+		"(time.Time).Sub":        extZeroResult,
 		"(time.Duration).String": func(fr *frame, args []value) value { return "0s" },
 
 		// ---- sort.Slice family (the real ones go through reflectlite)
@@ -190,7 +205,10 @@ func (e *Engine) intrinsics() map[string]externalFn {
 			if s, ok := args[0].(string); ok {
 				return strconv.Quote(s)
 			}
-			return fr.i.path.placeholderFor("Quote", "%q", []value{args[0]})
+			// symbolic text: the real strconv.Quote is interpreted (a placeholder, as for the
+			// arguments of error messages, is wrong as soon as the result is program output:
+			// a seeded change made the formatter print strings with Quote, DESIGN.md 9.5)
+			return interpretBody{}
 		},
 	}
 	for k, v := range m {
@@ -754,6 +772,16 @@ func extAtomicAdd(fr *frame, args []value) value {
 	}
 	*p = binop(fr.i, token.ADD, nil, *p, args[1])
 	return *p
+}
+
+func extAtomicSwap(fr *frame, args []value) value {
+	p := args[0].(*value)
+	if p == nil {
+		fr.i.nilDeref()
+	}
+	old := *p
+	*p = args[1]
+	return old
 }
 
 func extAtomicCAS(fr *frame, args []value) value {
